@@ -54,6 +54,9 @@ CLASS_SEEDS = [
     "u = 0\nx = 1\nwhile true:\n    u = Normal(0, 1)\n    x = x + u**2*x/2\nend\n",
     "d = 1\ny = 1\nwhile true:\n    d = DiscreteUniform(1, 3)\n    y = y*d**2/2\nend\n",
     "u = 0\nx = 1\ns = 0\nwhile true:\n    u = Uniform(0, 2)\n    s = s + x\n    x = x*u**3 + u\nend\n",
+    # a loop constant derived (by a polynomial) from a random loop constant, used in a branch condition / the guard
+    "u = Bernoulli(1/2)\nk = 2*u + 1\nx = 0\ny = 0\nwhile true:\n    if k > 2:\n        x = x + k\n    else:\n        y = y + 1\n    end\nend\n",
+    "u = DiscreteUniform(0, 2)\nk = u*u + 1\nx = 0\nwhile k < 3:\n    x = x + k\nend\n",
     # || / ! / elif chains
     "c = 0\nx = 0\ny = 0\nwhile true:\n    c = DiscreteUniform(0, 3)\n    if c == 0 || c == 3:\n        x = x + 1\n    elif !(c == 1):\n        y = y + 1\n    elif c >= 1:\n        y = y - 1\n    else:\n        x = 0\n    end\nend\n",
     # guard over two finite variables, location-scale draws
